@@ -277,3 +277,9 @@ W_FAIL = dict(
     cover=["return"],
 )
 CONTRACTS += [SEND_SAMPLES, W_DRIVE_MSG, W_COMPLETE, W_DRIVE, W_FAIL]
+
+# the executor side of completed-by (a client of the completing task runs until its own runner is done; the flag is set when it ends): the
+# AsyncExecutor.__call__ contract of C04, claimed here too
+from contracts.C04 import CALL as _EXEC_CALL  # noqa: E402
+
+CONTRACTS += [dict(_EXEC_CALL, prop="C01")]
